@@ -313,6 +313,9 @@ type cliOpt struct {
 func (o cliOpt) sx() string {
 	switch o.kind {
 	case "http":
+		if o.tid < 0 {
+			return fmt.Sprintf("(http %d nil)", o.id)
+		}
 		return fmt.Sprintf("(http %d %d)", o.id, o.tid)
 	case "auth":
 		return fmt.Sprintf("(auth %s %s)", hs(o.loc), hs(o.cred))
@@ -337,6 +340,12 @@ func (o cliOpt) build(w *cliWorld) tp.ClientOption {
 	switch o.kind {
 	case "http":
 		h := &http.Client{Transport: &cliTransport{o.tid, w}, Jar: &cliJar{o.id, w}}
+		if o.tid < 0 {
+			// an http.Client WITHOUT a transport of its own (say, only a timeout or a jar set): requests then go
+			// through http.DefaultTransport, which this scenario replaces by a recording one
+			h.Transport = nil
+			http.DefaultTransport = &cliTransport{-1, w}
+		}
 		// the caller's *http.Client is shared: another discharge client was built on it before, with its
 		// own credentials for every host of the pool, options in the order auth -> http.  A client must
 		// never pick up credentials configured on another client (nor write into the caller's http.Client).
@@ -649,6 +658,10 @@ func cliIDs(p string, m map[int]bool) string {
 	sort.Ints(ids)
 	var ss []string
 	for _, i := range ids {
+		if i < 0 {
+			ss = append(ss, "default")
+			continue
+		}
 		ss = append(ss, fmt.Sprintf("%s%d", p, i))
 	}
 	if len(ss) == 0 {
@@ -942,7 +955,12 @@ func genCliScenario(r *Rng, o *Out, idx int) *cliScenario {
 		nh = 2
 	}
 	for i := 0; i < nh; i++ {
-		sc.opts = append(sc.opts, cliOpt{kind: "http", id: i + 1, tid: 10 + r.Intn(3)*10 + i})
+		tid := 10 + r.Intn(3)*10 + i
+		if r.Chance(1, 4) {
+			tid = -1
+			o.count("cfg.http.noTransport")
+		}
+		sc.opts = append(sc.opts, cliOpt{kind: "http", id: i + 1, tid: tid})
 	}
 	o.count(fmt.Sprintf("cfg.http.%d", nh))
 	// tickets: locations mostly the configured ones
